@@ -35,6 +35,9 @@ class FixedHardwareConnector(LocalConnector):
                                                         local=True, slots=1, hardware=self.hardware)}
 
 
+from streamflow.data import remotepath as _remotepath
+
+_REAL_USAGES = _remotepath.get_storage_usages
 _orig_usages = None
 
 
@@ -152,23 +155,146 @@ async def history(in_protocol=True):
     return bad
 
 
+async def multi_target_history():
+    """jobs bound to TWO targets (each a deployment with its own capacity): a job that waited for a full target and was placed on the
+    other one must not be placed a second time when the first target frees up; per location, the reservation is the sum over the
+    fireable and running jobs allocated THERE"""
+    from streamflow.data import remotepath
+
+    remotepath.get_storage_usages = _flaky_usages
+    streamflow.deployment.connector.connector_classes["fixed-hardware"] = FixedHardwareConnector
+    workdir = tempfile.mkdtemp(prefix="c11m.")
+    ctx = build_context({"database": {"type": "default", "config": {"connection": ":memory:"}}, "path": workdir})
+    bad = None
+    try:
+        targets, cap = [], {}
+        for name in ("depA", "depB"):
+            cfg = DeploymentConfig(name=name, type="fixed-hardware", config={}, external=True, lazy=False, workdir=workdir)
+            await ctx.deployment_manager.deploy(cfg)
+            cap[name] = float(rng.choice([1, 2]))
+            ctx.deployment_manager.get_connector(name).hardware = Hardware(cores=cap[name], memory=CAP_MEM, storage={os.sep: Storage(os.sep, 10 ** 7)})
+            targets.append(Target(deployment=cfg, service=None, workdir=workdir))
+        sched = ctx.scheduler
+        jobs, pending, trace = {}, {}, []
+        for step in range(rng.randint(5, 14)):
+            if rng.random() < 0.5 and len(jobs) < 6:
+                name = f"/step/0.{len(jobs)}"
+                req = CWLHardwareRequirement(cwl_version="v1.2", cores=1, memory=100, tmpdir=1, outdir=1)
+                job = Job(name=name, workflow_id=0, inputs={}, input_directory=None, output_directory=None, tmp_directory=None)
+                jobs[name] = Status.WAITING
+                pending[name] = asyncio.create_task(sched.schedule(job, BindingConfig(targets=list(targets)), req))
+                trace.append(("schedule", name))
+            else:
+                live = [n for n, st in jobs.items() if n not in pending and st in (Status.FIREABLE, Status.RUNNING)]
+                if live:
+                    n = rng.choice(live)
+                    new = Status.RUNNING if jobs[n] == Status.FIREABLE and rng.random() < 0.6 else Status.COMPLETED
+                    await sched.notify_status(n, new)
+                    jobs[n] = new
+                    trace.append(("notify", n, new.name))
+            for _ in range(60):
+                await asyncio.sleep(0)
+            for n, t in list(pending.items()):
+                if t.done() or (n in sched.job_allocations and sched.job_allocations[n].status == Status.FIREABLE):
+                    await asyncio.wait_for(t, 10)
+                    jobs[n] = Status.FIREABLE
+                    del pending[n]
+            for loc in ("depA", "depB"):
+                hw = sched.hardware_locations.get(loc)
+                got = hw.cores if hw else 0.0
+                want = float(sum(1 for n, a in sched.job_allocations.items() if jobs.get(n) in (Status.FIREABLE, Status.RUNNING) and a.status in (Status.FIREABLE, Status.RUNNING)
+                                 and any(l.name == loc for l in a.locations)))
+                if got > cap[loc] + 1e-9:
+                    bad = {"failure": "C10: reserved cores exceed the capacity of a target", "location": loc, "reserved": got, "capacity": cap[loc], "trace": trace[-8:]}
+                elif got != want:
+                    bad = {"failure": "C11: the cores reserved on a target differ from the sum over the fireable and running jobs allocated there", "location": loc,
+                           "reserved": got, "expected": want, "trace": trace[-8:]}
+                if bad:
+                    break
+            if bad:
+                break
+        for t in pending.values():
+            t.cancel()
+    except Exception as e:
+        bad = {"failure": f"exception {type(e).__name__}: {e}"}
+    finally:
+        try:
+            await ctx.deployment_manager.undeploy_all()
+            await ctx.close()
+        except Exception:
+            pass
+        shutil.rmtree(workdir, ignore_errors=True)
+    return bad
+
+
+async def real_usage_history():
+    """the release of a completed job measures the job's directories with the REAL get_storage_usages: the directories hold a regular
+    file, a link to a large file elsewhere and a dangling link.  Cores and memory go back to zero whatever the directories contain,
+    and the storage kept is what the job really left there (links are not followed)"""
+    _remotepath.get_storage_usages = _REAL_USAGES
+    streamflow.deployment.connector.connector_classes["fixed-hardware"] = FixedHardwareConnector
+    workdir = tempfile.mkdtemp(prefix="c11r.")
+    ctx = build_context({"database": {"type": "default", "config": {"connection": ":memory:"}}, "path": workdir})
+    bad = None
+    try:
+        cfg = DeploymentConfig(name="dep", type="fixed-hardware", config={}, external=True, lazy=False, workdir=workdir)
+        await ctx.deployment_manager.deploy(cfg)
+        ctx.deployment_manager.get_connector("dep").hardware = Hardware(cores=CAP_CORES, memory=CAP_MEM, storage={os.sep: Storage(os.sep, 10 ** 6)})
+        dirs = {k: os.path.join(workdir, k) for k in ("input", "output", "tmp", "elsewhere")}
+        for d in dirs.values():
+            os.makedirs(d)
+        job = Job(name="/step/0.0", workflow_id=0, inputs={}, input_directory=dirs["input"], output_directory=dirs["output"], tmp_directory=dirs["tmp"])
+        req = CWLHardwareRequirement(cwl_version="v1.2", cores=2, memory=200, tmpdir=10, outdir=10)
+        await asyncio.wait_for(ctx.scheduler.schedule(job, BindingConfig(targets=[Target(deployment=cfg, service=None, workdir=workdir)]), req), 30)
+        await ctx.scheduler.notify_status(job.name, Status.RUNNING)
+        open(os.path.join(dirs["output"], "out.dat"), "wb").write(b"x" * (1 << 20))
+        open(os.path.join(dirs["elsewhere"], "big.dat"), "wb").write(b"y" * (4 << 20))
+        kind = rng.choice(["link to a file elsewhere", "dangling link", "both"])
+        if kind in ("link to a file elsewhere", "both"):
+            os.symlink(os.path.join(dirs["elsewhere"], "big.dat"), os.path.join(dirs["output"], "linked.dat"))
+        if kind in ("dangling link", "both"):
+            os.symlink(os.path.join(dirs["tmp"], "removed.tmp"), os.path.join(dirs["output"], "dangling.dat"))
+        try:
+            await ctx.scheduler.notify_status(job.name, Status.COMPLETED)
+        except Exception as e:
+            bad = {"failure": f"notify_status(COMPLETED) raised {type(e).__name__}: {e}", "job_directory_holds": kind}
+        hw = ctx.scheduler.hardware_locations.get("dep")
+        if bad is None and hw is not None and (hw.cores != 0 or hw.memory != 0):
+            bad = {"failure": "C11: cores/memory still reserved after the job completed", "reserved": (hw.cores, hw.memory), "job_directory_holds": kind}
+        if bad is None and hw is not None:
+            kept = sum(s.size for s in hw.storage.values())
+            if kept > 1.5:  # MiB: the job left one 1 MiB file; what its links point to is not its usage
+                bad = {"failure": "the storage kept for a completed job counts what its symbolic links point to", "kept_MiB": kept, "job_directory_holds": kind}
+    except Exception as e:
+        bad = {"failure": f"exception {type(e).__name__}: {e}"}
+    finally:
+        try:
+            await ctx.deployment_manager.undeploy_all()
+            await ctx.close()
+        except Exception:
+            pass
+        shutil.rmtree(workdir, ignore_errors=True)
+    return bad
+
+
 class _Host(LocalConnector):
-    def __init__(self, name, workdir, cores):
+    def __init__(self, name, workdir, cores, slots=None):
         super().__init__(name, workdir)
-        self.cores = cores
+        self.cores, self.slots = cores, slots
 
     async def get_available_locations(self, service=None):
+        hw = None if self.slots is not None else Hardware(cores=self.cores, memory=10 ** 6, storage={os.sep: Storage(os.sep, 10 ** 7)})
         return {"host": AvailableLocation(name="host", deployment=self.deployment_name, service=service, hostname="localhost", local=True,
-                                          hardware=Hardware(cores=self.cores, memory=10 ** 6, storage={os.sep: Storage(os.sep, 10 ** 7)}))}
+                                          slots=self.slots if self.slots is not None else 1, hardware=hw)}
 
 
 def _stacked_class():
     from streamflow.deployment.wrapper import ConnectorWrapper
 
     class _Stacked(ConnectorWrapper):
-        def __init__(self, name, workdir, connector, loc_name, cores):
+        def __init__(self, name, workdir, connector, loc_name, cores, slots=None, stacked=True):
             super().__init__(name, workdir, connector, None, 2 ** 16)
-            self.loc_name, self.cores = loc_name, cores
+            self.loc_name, self.cores, self.slots, self.stacked = loc_name, cores, slots, stacked
 
         async def deploy(self, external):
             pass
@@ -182,51 +308,62 @@ def _stacked_class():
 
         async def get_available_locations(self, service=None):
             inner = next(iter((await self.connector.get_available_locations()).values()))
+            hw = None if self.slots is not None else Hardware(cores=self.cores, memory=10 ** 6, storage={os.sep: Storage(os.sep, 10 ** 7)})
             return {self.loc_name: AvailableLocation(name=self.loc_name, deployment=self.deployment_name, service=service, hostname="localhost", local=True,
-                                                     hardware=Hardware(cores=self.cores, memory=10 ** 6, storage={os.sep: Storage(os.sep, 10 ** 7)}),
-                                                     stacked=True, wraps=inner)}
+                                                     slots=self.slots if self.slots is not None else 1, hardware=hw, stacked=self.stacked, wraps=inner)}
 
     return _Stacked
 
 
-async def stacked_history():
-    """C10 on stacked locations: one host under two stacks of 1..3 levels; the reservation on EVERY level (the shared host
-    included) never exceeds that level's capacity"""
+async def stacked_history(force_unstacked=False):
+    """C10 on wrapped locations: one host under two chains of 1..3 wrappers, each level limited by cores (hardware) or by slots (no
+    hardware information), wrappers stacked (their jobs also count on what they wrap) or not, the host also targeted directly now and
+    then.  On EVERY level the active jobs that count there never need more than the level has."""
     workdir = tempfile.mkdtemp(prefix="c10s.")
     ctx = build_context({"database": {"type": "default", "config": {"connection": ":memory:"}}, "path": workdir})
     Stacked = _stacked_class()
     bad = None
     try:
+        slot_mode = rng.random() < 0.35 and not force_unstacked
         host_cap = float(rng.choice([1, 2, 3]))
-        host = _Host("host-dep", workdir, host_cap)
+        host = _Host("host-dep", workdir, host_cap, slots=int(host_cap) if slot_mode else None)
         deployments = {"host-dep": host}
         caps = {"host": host_cap}
+        stacked_flag = {}
         targets = []
         for s in ("a", "b"):
             conn = host
+            stacked = rng.random() < 0.75 and not force_unstacked
             for lvl in range(rng.randint(1, 3)):
                 cap = float(rng.choice([2, 3, 4]))
-                conn = Stacked(f"l{lvl}-{s}", workdir, conn, f"l{lvl}-{s}-loc", cap)
+                conn = Stacked(f"l{lvl}-{s}", workdir, conn, f"l{lvl}-{s}-loc", cap, slots=int(cap) if slot_mode else None, stacked=stacked)
                 deployments[conn.deployment_name] = conn
                 caps[f"l{lvl}-{s}-loc"] = cap
+                stacked_flag[f"l{lvl}-{s}-loc"] = stacked
             targets.append(Target(deployment=DeploymentConfig(name=conn.deployment_name, type="stacked", config={}), workdir=workdir))
+        if rng.random() < 0.5 or force_unstacked:
+            # (the wrapped host is also a target of its own: what a non-stacked wrapper runs does not count there)
+            targets += [Target(deployment=DeploymentConfig(name="host-dep", type="local", config={}), workdir=workdir)] * (3 if force_unstacked else 1)
         ctx.deployment_manager.deployments_map.update(deployments)
         sched = ctx.scheduler
         req = CWLHardwareRequirement(cwl_version="v1.2", cores=1, memory=10, tmpdir=0, outdir=0)
-        jobs, pending = {}, {}
-        for step in range(rng.randint(4, 12)):
-            if rng.random() < 0.55 and len(jobs) < 7:
+        jobs, pending, trace = {}, {}, []
+        for step in range(rng.randint(4, 14)):
+            if rng.random() < 0.55 and len(jobs) < 8:
                 name = f"/step/0.{len(jobs)}"
                 job = Job(name=name, workflow_id=0, inputs={}, input_directory=workdir, output_directory=workdir, tmp_directory=workdir)
                 jobs[name] = Status.WAITING
-                pending[name] = asyncio.create_task(sched.schedule(job, BindingConfig(targets=[rng.choice(targets)]), req))
+                tg = rng.choice(targets)
+                pending[name] = asyncio.create_task(sched.schedule(job, BindingConfig(targets=[tg]), req))
+                trace.append(("schedule", name, tg.deployment.name))
             else:
                 live = [n for n, st in jobs.items() if n not in pending and st in (Status.FIREABLE, Status.RUNNING)]
                 if live:
                     n = rng.choice(live)
-                    new = Status.RUNNING if jobs[n] == Status.FIREABLE else Status.COMPLETED
+                    new = Status.RUNNING if jobs[n] == Status.FIREABLE and rng.random() < 0.6 else rng.choice([Status.COMPLETED, Status.FAILED])
                     await sched.notify_status(n, new)
                     jobs[n] = new
+                    trace.append(("notify", n, new.name))
             for _ in range(50):
                 await asyncio.sleep(0)
             for n, t in list(pending.items()):
@@ -234,7 +371,7 @@ async def stacked_history():
                     await asyncio.wait_for(t, 10)
                     jobs[n] = Status.FIREABLE
                     del pending[n]
-            # cores in use per level, from the allocations themselves
+            # what the active jobs need per level: a job counts on its own location and, through STACKED wrappers, on what they wrap
             used = {}
             for n, alloc in sched.job_allocations.items():
                 if alloc.status in (Status.FIREABLE, Status.RUNNING):
@@ -242,11 +379,11 @@ async def stacked_history():
                         l = loc
                         while l is not None:
                             used[l.name] = used.get(l.name, 0.0) + 1.0
-                            l = l.wraps
+                            l = l.wraps if stacked_flag.get(l.name, False) else None
             for lname, u in used.items():
                 if u > caps[lname] + 1e-9:
-                    bad = {"failure": "C10: the jobs allocated on a (stacked) location need more cores than it has", "location": lname, "cores_needed": u,
-                           "capacity": caps[lname], "stacks": sorted(caps)}
+                    bad = {"failure": "C10: the jobs active on a location need more than it has", "location": lname, "needed": u, "capacity": caps[lname],
+                           "limited_by": "slots" if slot_mode else "cores", "stacked": stacked_flag, "trace": trace[-8:]}
                     break
             if bad:
                 break
@@ -264,8 +401,12 @@ async def stacked_history():
 
 
 async def search(n):
+    for _ in range(3):
+        bad = await real_usage_history()
+        if bad:
+            return bad
     for _ in range(max(4, n // 2)):
-        bad = await stacked_history()
+        bad = await stacked_history() or await stacked_history(force_unstacked=True) or await multi_target_history()
         if bad:
             return bad
     for _ in range(n):
